@@ -339,7 +339,7 @@ pub fn run(args: &Args) -> i32 {
     ));
     rep.assume("descriptor exhaustion is injected as Io(EMFILE) at the forwarder boundary, not by exhausting descriptors");
     rep.assume("'never completes' is answered after the establishment timeout under the paused clock (timing itself is judged by C14 part B)");
-    rep.assume("HTTP/3 is not exercised in this check");
     scenarios(&rep, args);
+    crate::props::h3_l2::c10_h3(&rep, args);
     rep.finish()
 }
